@@ -198,7 +198,9 @@ def run(ctx: Ctx) -> None:
         "(levelled from 0, balanced, SyntaxTreeNode builds) for that sub-parser, whose model is tied by the `miniblock` "
         "differential runs; and for the container rule blockquote (Props/C02c.lean: quote_tokens, QuoteWrap, qChain_seg by "
         "induction on the nesting budget), giving q_wellformed for the sub-parser with block quotes nested to any depth "
-        "(tie: `qblock`); for the other rules K5 is monitored on the implementation (contract monitor), not proved",
+        "(tie: `qblock`), and for the list rule (Props/C02d.lean: listItem_tokens, listItems_chain, listRun_tokens — a list is "
+        "open ++ items ++ close up to the hidden flags of markTightParagraphs, markTight_spec — ListWrap, lChain_seg), giving "
+        "l_wellformed with quotes and lists nested in each other to any depth (tie: `lblock`); for the other rules K5 is monitored on the implementation (contract monitor), not proved",
     ]
 
 
